@@ -34,8 +34,6 @@ EXTRA_EDITS = [
     ('property', 'ta.p.merge=any', OL.setter(lambda o: OL._prop(o, 'p'), 'merge', 'any')),
     ('property', 'ta.r.object-type=o', OL.setter(lambda o: OL._prop(o, 'r'), 'object-type', 'o')),
     ('property', 'ta.q.optional+single', lambda o: OL._prop(o, 'q').update({'optional': True, 'multivalued': False})),
-    ('property', 'ta.p.optional+object-type', lambda o: OL._prop(o, 'p').update({'optional': True, 'object-type': 'g'})),
-    ('property', 'ta.p.optional+merge', lambda o: OL._prop(o, 'p').update({'optional': True, 'merge': 'any'})),
     ('property', 'ta.m.optional', OL.setter(lambda o: OL._prop(o, 'm'), 'optional', True)),
     ('property', 'ta.m.optional+single', lambda o: OL._prop(o, 'm').update({'optional': True, 'multivalued': False})),
     ('property', 'ta.m.optional+object-type', lambda o: OL._prop(o, 'm').update({'optional': True, 'object-type': 'g'})),
@@ -242,9 +240,18 @@ def main(argv):
         if not accepted:
             continue
         vU = EventValidator(U)
+        # ... and under the accepted new definitions on their own (a consumer may hold only the newer ontology)
+        try:
+            vN = EventValidator(OL.load_element(defs[-1]))
+        except Exception:
+            vN = None
         for i, (ev, atts) in enumerate(valid_pool):
             ck.cov['evaluations'] += 1
             r = is_valid(vU, ev, atts)
+            if r is True and vN is not None:
+                r = is_valid(vN, ev, atts)
+                if r is not True:
+                    r = '%s under the newer definitions alone' % r
             if r is not True:
                 ck.oracle_failures.append({'signature': 'accepted-upgrade-invalidates-event/' + label, 'input': dict(inp, event=ev, attachments=atts),
                                            'observed': 'valid under the old ontology, %s under the accepted upgrade' % r})
